@@ -1,7 +1,7 @@
 """Task family of the C20 check (group gM): every task interprets a *spec* given as data, so arbitrary call trees
 (failures, duplicates, prov=False subtrees, tags, catch) are produced by a handful of real redun tasks.
 
-spec  ::= (kind, label, calls)            kind in leaf | fail | par | comb | catch | tags | then
+spec  ::= (kind, label, calls)            kind in leaf | fail | par | comb | catch | tags | tags2 | then
 call  ::= (variant, opt, spec)            variant in A | B | S | N | T | U ; opt in "" | "np" (prov=False at the call) | "tg" (tags at the call)
 """
 import redun
@@ -36,6 +36,10 @@ def interp(spec):
     if kind == "tags":
         inner = call(calls[0]) if calls else label
         return apply_tags(inner, tags=[("vk", label)], job_tags=[("jk", label)], execution_tags=[("ek", label)])
+    if kind == "tags2":
+        # one job tags two values (the results of two child calls, possibly EQUAL values) with different tag lists
+        return [apply_tags(call(calls[0]), tags=[("vk", label)]),
+                apply_tags(call(calls[1]), tags=[("vk2", label), ("vk3", label + 1)], job_tags=[("jk2", label)])]
     if kind == "then":
         return after(call(calls[0]), calls[1:])
     raise AssertionError(kind)
